@@ -6,6 +6,26 @@ ROOT = os.path.dirname(os.path.dirname(os.path.abspath(__file__)))
 
 # property id -> (engine, level category, technique, level text, level note, design ref)
 CHECKS = {
+    "C02": ("ENUM (isolated workers)", "exploration",
+            "deviation-bounded exhaustive mutation of fixtures and builder-made artifacts per parser target inside isolated worker processes with a counting allocator",
+            "For each of 29 parser/decoder targets and every seed (repository fixtures, builder-made artifacts, minimal text documents): every byte substitution (all 255 values for seeds up to 4 KiB, boundary values otherwise), every truncation length, extensions, every 2/3/4/5/8-byte window near start/end set to boundary values in both endiannesses, (thorough) every pair of boundary windows in headers/footers, every short string over the grammar tokens of the text formats. Each case runs in a worker process: a panic, an abort (incl. a single allocation request beyond 1 GiB + 64 MiB, refused by the counting allocator), 5 s of CPU time without returning, or a disproportionate allocation in a non-decompressing parser is a violation attributed to exactly that case.",
+            "Trusted: worker isolation and the allocator's limits. Inputs more than one (thorough: two header/footer) deviations away from every seed are not reached; overflow checks are on (as in cargo test).",
+            "DESIGN.md §4 C02"),
+    "C03": ("ENUM", "exploration",
+            "bounded-exhaustive enumeration of key sets straddling every page/block boundary, key sizes x offset widths, root versions x file counts, TVFS path trees and counts; built, serialized, parsed, then probed through every lookup flavour against a map model and a linear scan",
+            "Encoding tables (1 KiB pages, 1-3 EKeys per CKey), CDN archive indices and archive groups (key sizes 1..16 x offset widths 4/5/6), root manifests V1-V4 x 0..=130 records x named counts x locales x FDID layouts, TVFS manifests (all path sets up to 4/5 paths, file counts crossing the offset-width switches, component lengths 1..511) and the ContentResolver chain: fillers put the page/block boundary at every position of an 8-key window, every subset of the window is inserted, every key, key+-1, all-00 and all-FF is probed through every lookup flavour incl. batch variants. Oracle: BTreeMap model; batch = single; every flavour = linear scan of the parsed entries.",
+            "Trusted: the map model. Duplicate keys, pages other than 1 KiB, more than 130 root records and multi-span TVFS files are not covered.",
+            "DESIGN.md §4 C03"),
+    "C16": ("ENUM", "exploration",
+            "exhaustive enumeration of (old,new) pairs over a 2-letter alphabet under four encodings x builders x block sizes x patchers, and of all small control blocks; judged against the new file, the length law and an independent bspatch",
+            "Every (old,new) in {a,b}^<=6 (thorough <=8) as single bytes, 4-byte blocks and 256-byte blocks x simple/chunked/suffix-array builders x max_diff_block_size grid x in-memory / parsed / streaming patchers (buffer grid) plus an independent bspatch written from the format description: apply(old, build(old,new)) = new everywhere. Every control block of <=2 (thorough 3) triples with diff/extra 0..=3, seek -3..=3, data lengths needed-1/needed/needed+1, output_size 0..=8: Ok(out) implies out.len() = header.output_size, never a panic.",
+            "Trusted: the independent bspatch (self-checked on hand-computed vectors; shares only the zlib inflater). Data comes from a 2-letter alphabet; real CDN patches are left to the repository's fixture tests.",
+            "DESIGN.md §4 C16"),
+    "C18": ("ENUM", "exploration",
+            "exhaustive enumeration of files and span sets on a byte grid and a buffer grid, mover cases, and all small segment populations for the merge planner",
+            "Files of 0..=8 (thorough 10) bytes with every ordered tuple of <=3 spans on the grid (overlapping, duplicate, zero-length, unsorted), larger disjoint sets, the same on a 64 KiB buffer grid with budgets 128 KiB..1 MiB; compact_in_place / move_data cases; every population of <=5 (thorough 6) segments x 7 write positions x Frozen/other x thresholds x segment sizes for plan_archive_merge. Oracle: result = concatenation of the live spans in offset order, bytes saved truthful, overlapping sets refused with the file untouched; no planned move onto live bytes, no two moves overlapping, no segment overfilled.",
+            "Trusted: the concatenation oracle and the three geometry invariants. I/O errors and spans beyond EOF are not covered; there is no executor for merge plans, only their geometry is judged.",
+            "DESIGN.md §4 C18"),
     "C04": ("SEQ", "model_checking",
             "explicit-state exploration of all write/read/query/remove/flush/reopen histories up to a depth bound on the real DynamicContainer, Installation and ArchiveManager, lock-step with a map model",
             "Every history up to depth 4 (quick) / 5 (thorough) with at most 3 writes over size classes {0,1,50,100,1000,70000} x payload classes (random, zeros, starts with BLTE, BLTE at 0x1E, nested BLTE file, local header + BLTE), reads/queries/removes of any earlier object, flush and reopen, on DynamicContainer (with and without LRU), Installation and ArchiveManager (ZLib/LZ4), also from pre-states with a 200 000-byte object already mapped; no state merging (the mmap snapshot is hidden state). The encoding key is computed independently (MD5 of the single-chunk BLTE). Oracle: a read of a live key returns exactly the written bytes, query is true, reopen keeps everything.",
